@@ -85,7 +85,7 @@ func (c *ctx) one(kind string, input []byte) []byte {
 		return out
 	}
 	atomic.AddInt64(&c.fails, 1)
-	id := kind + ":" + string(input)
+	id := kind + ":" + short(input)
 	if atomic.LoadInt64(&c.fails) <= 200 {
 		c.r.Case(id, func() *core.Fail {
 			g := judge(input)
@@ -98,8 +98,19 @@ func (c *ctx) one(kind string, input []byte) []byte {
 	return nil
 }
 
+// short abbreviates an input of more than 300 bytes to its head, tail and length (wide documents).
+func short(b []byte) string {
+	if len(b) <= 300 {
+		return string(b)
+	}
+	return fmt.Sprintf("%s ... %s (%d bytes)", b[:120], b[len(b)-60:], len(b))
+}
+
 func judge(input []byte) *core.Fail {
-	det := map[string]any{"input": string(input), "input_hex": fmt.Sprintf("%x", input)}
+	det := map[string]any{"input": short(input)}
+	if len(input) <= 300 {
+		det["input_hex"] = fmt.Sprintf("%x", input)
+	}
 	v, err := jcs.Parse(input)
 	if err != nil {
 		core.Engine("c05: generator produced JSON the reference parser refuses: %q: %v", input, err)
@@ -109,22 +120,22 @@ func judge(input []byte) *core.Fail {
 		core.Engine("c05: reference cannot canonicalize %q: %v", input, err)
 	}
 	got, err := canonicalizer.MarshalCanonical(input)
-	det["expected"] = string(want)
+	det["expected"] = short(want)
 	if err != nil {
 		det["error"] = err.Error()
 		return &core.Fail{Key: "x", What: "valid I-JSON input refused: " + err.Error(), Detail: det}
 	}
-	det["observed"] = string(got)
+	det["observed"] = short(got)
 	if !bytes.Equal(got, want) {
-		return &core.Fail{Key: "x", What: fmt.Sprintf("output %q differs from RFC 8785 form %q", got, want), Detail: det}
+		return &core.Fail{Key: "x", What: fmt.Sprintf("output %q differs from RFC 8785 form %q", short(got), short(want)), Detail: det}
 	}
 	again, err := canonicalizer.MarshalCanonical(got)
 	if err != nil || !bytes.Equal(again, got) {
-		return &core.Fail{Key: "x", What: fmt.Sprintf("output is not a fixed point: %q -> %q (%v)", got, again, err), Detail: det}
+		return &core.Fail{Key: "x", What: fmt.Sprintf("output is not a fixed point: %q -> %q (%v)", short(got), short(again), err), Detail: det}
 	}
 	back, err := jcs.Parse(got)
 	if err != nil || !jcs.Equal(back, v) {
-		return &core.Fail{Key: "x", What: fmt.Sprintf("output %q does not denote the input value (%v)", got, err), Detail: det}
+		return &core.Fail{Key: "x", What: fmt.Sprintf("output %q does not denote the input value (%v)", short(got), err), Detail: det}
 	}
 	return nil
 }
@@ -142,7 +153,7 @@ func (c *ctx) group(kind string, inputs [][]byte) {
 			continue
 		}
 		if !bytes.Equal(out, first) {
-			id := kind + ":invariance:" + string(inputs[0]) + " vs " + string(in)
+			id := kind + ":invariance:" + short(inputs[0]) + " vs " + short(in)
 			a, b := inputs[0], in
 			c.r.Case(id, func() *core.Fail {
 				x, _ := canonicalizer.MarshalCanonical(a)
@@ -279,6 +290,72 @@ func Run(r *core.Run) {
 		c.group("order", inputs)
 		atomic.AddInt64(&groups, 1)
 	})
+	// ---- 2b. long objects: n members with plain sorted names, and every ordered pair of the special names put after them, before
+	// them and after them in reverse (an insertion that looks at the tail, the head or the length of the list first must still sort)
+	{
+		type longCase struct {
+			n    int
+			x, y string
+		}
+		var longs []longCase
+		for _, n := range []int{10, 11, 12, 13, 20, 64} {
+			for _, x := range multi {
+				for _, y := range multi {
+					if x != y {
+						longs = append(longs, longCase{n, x, y})
+					}
+				}
+			}
+		}
+		core.Parallel(len(longs), func(i int) {
+			lc := longs[i]
+			var filler, rev []string
+			for k := 0; k < lc.n; k++ {
+				filler = append(filler, fmt.Sprintf(`"k%02d":%d`, k, k))
+			}
+			for k := lc.n - 1; k >= 0; k-- {
+				rev = append(rev, filler[k])
+			}
+			mx, my := fmt.Sprintf(`"%s":"x"`, lc.x), fmt.Sprintf(`"%s":"y"`, lc.y)
+			f, rv := strings.Join(filler, ","), strings.Join(rev, ",")
+			c.group("long-object", [][]byte{[]byte("{" + f + "," + mx + "," + my + "}"), []byte("{" + f + "," + my + "," + mx + "}"),
+				[]byte("{" + mx + "," + my + "," + f + "}"), []byte("{" + rv + "," + my + "," + mx + "}"), []byte("{" + mx + "," + rv + "," + my + "}")})
+			atomic.AddInt64(&groups, 1)
+		})
+		r.Class("long-objects")
+	}
+	// ---- 2c. wide documents: many values at one level (counters that are kept per document, such as a nesting depth, see a wide
+	// document as well as a deep one); 9999 / 10001 (thorough: also 10000 / 30000) strings, members, numbers, empty arrays and objects
+	{
+		var wides [][][]byte
+		wideSizes := []int{9999, 10001}
+		if r.Thorough() {
+			wideSizes = []int{9999, 10000, 10001, 30000}
+		}
+		for _, n := range wideSizes {
+			var strsA, strsB, mem, memRev, nums, arrs, objs3 []string
+			for k := 0; k < n; k++ {
+				strsA = append(strsA, fmt.Sprintf(`"s%d"`, k))
+				strsB = append(strsB, fmt.Sprintf(` "s%d"`, k))
+				mem = append(mem, fmt.Sprintf(`"m%06d":"v%d"`, k, k))
+				nums = append(nums, strconv.Itoa(k))
+				arrs = append(arrs, "[]")
+				objs3 = append(objs3, `{"a":["x"]}`)
+			}
+			for k := n - 1; k >= 0; k-- {
+				memRev = append(memRev, mem[k])
+			}
+			wides = append(wides, [][]byte{[]byte("[" + strings.Join(strsA, ",") + "]"), []byte("[" + strings.Join(strsB, ",") + " ]")},
+				[][]byte{[]byte("{" + strings.Join(mem, ",") + "}"), []byte("{" + strings.Join(memRev, ",") + "}")},
+				[][]byte{[]byte("[" + strings.Join(nums, ",") + "]")}, [][]byte{[]byte("[" + strings.Join(arrs, ",") + "]")}, [][]byte{[]byte("[" + strings.Join(objs3, ",") + "]")},
+				[][]byte{[]byte(`{"ids":[` + strings.Join(strsA, ",") + `],"n":1}`)})
+		}
+		core.Parallel(len(wides), func(i int) {
+			c.group("wide", wides[i])
+			atomic.AddInt64(&groups, 1)
+		})
+		r.Class("wide-documents")
+	}
 	r.Class("orders")
 	r.Sample(map[string]any{"kind": "member order (UTF-16 vs code point)", "inputs": []string{`{"😀":0,"דּ":1}`, `{"דּ":1,"😀":0}`}})
 
